@@ -86,7 +86,10 @@ where
         loop {
             match self.records.next() {
                 Some(r) => {
-                    if intersects(&r, self.interval) {
+                    // A multi-reference slice also holds records of other reference sequences.
+                    if r.reference_sequence_id() == Some(self.reference_sequence_id)
+                        && intersects(&r, self.interval)
+                    {
                         *record = r;
                         return Ok(1);
                     }
